@@ -303,4 +303,8 @@ def gen_conv(rng, force=None):
         w += [hx(lab), str(ord(ty))]
     w.append(str(len(spec)))
     w += [hx(l) for l in spec]
+    # optional trailing token: row of the space-group table (default P 21 21 21); the harness skips settings that the
+    # PDB-style name written to the mmCIF cannot identify (origin choices, non-standard settings sharing a name)
+    if 'sgrow' in force or rng.random() < 0.5:
+        w.append(str(force.get('sgrow', rng.choice([rng.randrange(564), -rng.randint(1, 14)]))))   # -k: k-th rhombohedral row
     return ' '.join(w)
